@@ -34,13 +34,15 @@ RULE = (
     "bank (every configuration inside C03's WF): multi-utterance histories - utterances too short for a frame, empty "
     "chunks, idle finalize, refused compute_full, whole and streamed utterances - op by op against the SI model "
     "(Model/Si.lean through drivers/C03.lean, exact integers) and the next utterance against a fresh instance. "
-    "Library-bank instances get the bit-identity oracle only. Distinct by (config, history)."
+    "Library-bank instances get the bit-identity oracle only, incl. exhaustive previous-utterance-length sweeps for an SI "
+    "computer (translation > shift) and for STFT computers whose frame shift EXCEEDS the frame length. Distinct by (config, history)."
 )
 TRUSTED = [
     "np.empty / stale buffer cells are modelled as arbitrary junk values; CPython aliasing semantics (inputs are passed by value in the model; read-only arrays are used in every run)",
     "tracer bank + integer window make each output row an exact integer",
 ]
 ASSUMPTIONS = [
+    "STFT computers with frame_shift > frame_length (frames with gaps) are inside the property but outside the STFT theorems' scope: covered by the exhaustive history sweep only (the Kaldi style with frame_shift//2 > frame_length//2 cannot compute anything - np.pad rejects the negative width - and is left out)",
     "theorem scope: the STFT computer with 1 <= frame_shift <= frame_length; the short-integration computer in every configuration (C04Si: no well-formedness hypothesis - the theorems are about the preamble's reset, for any outcome of the arithmetic)",
     "the dtype of the empty array returned by finalize() with no utterance in progress is the previous utterance's dtype (observed; features of the next utterance are unaffected)",
 ]
